@@ -2451,6 +2451,11 @@ class FileSet:
             raise ValueError("The path parameter cannot be None!")
 
         self._path = value
+        if self.has_root:
+            # Resolve a relative path once, against the current working
+            # directory: the base directory below is fixed at this moment as
+            # well, the fileset must not point elsewhere after a chdir.
+            self._path = os.path.abspath(value)
 
         # The path consists of three parts: the base directory, the sub
         # directory and the filename. The sub directory and filename may
